@@ -15,14 +15,14 @@ Q = "twisted.names._rfc1982.SerialNumber"
 TECHNIQUE = "finite-domain evaluation of SerialNumber methods by a whitelisted AST interpreter"
 EXPLANATION = (
     'SerialNumber.__init__/_convertOther/__eq__/__lt__/__gt__/__le__/__ge__/__add__ are read from the AST and '
-    'evaluated by a small whitelisted interpreter (integers, attribute reads, and/or/not, comparisons, try/except, '
+    'evaluated by a small whitelisted interpreter (integers and floats, attribute reads, and/or/not, comparisons, try/except, '
     'calls inside the class) - never by importing twisted. Every comparison is evaluated for all pairs of widths 1..5 '
     '(1..7 in the thorough tier) and for boundary representatives (|a-b| in {0,1,2,H-2..H+2,M-2,M-1}) of widths up to '
-    '64, so each cell of sign(a-b) x cmp(|a-b|, halfRing) is hit, and compared with RFC 1982 3.2 written '
+    '128 (53..56 included, where float rounding starts), so each cell of sign(a-b) x cmp(|a-b|, halfRing) is hit, and compared with RFC 1982 3.2 written '
     'independently as d=(b-a) mod 2^bits: lt iff 0<d<H, gt iff d>H, eq iff d=0 (both false at d=H), le/ge = eq or '
     'lt/gt. __add__ is evaluated likewise: n <= 2^(bits-1)-1 gives (s+n) mod 2^bits in the same width and compares '
     'greater for n>0, larger n raises ArithmeticError. Operands of another width or type are refused, the ring '
-    'constants are checked for widths 1..64, and the five fields are written only in __init__. Not decided: the RFC '
+    'constants are checked for widths 1..64/96/128 (n = 2^(bits-1)-1 and 2^(bits-1) exactly), and the five fields are written only in __init__. Not decided: the RFC '
     '4034 date-string helpers.'
 )
 ASSUMPTIONS = [
@@ -304,9 +304,8 @@ class Interp:
             v = self._expr(n.operand, env)
             if isinstance(n.op, ast.Not):
                 return not self._truth(v)
-            if isinstance(v, bool) or not isinstance(v, int):
-                if not isinstance(v, (int, bool)):
-                    raise _Raised("TypeError")
+            if not isinstance(v, (int, float)):
+                raise _Raised("TypeError")
             if isinstance(n.op, ast.USub):
                 return -v
             if isinstance(n.op, ast.UAdd):
@@ -333,9 +332,18 @@ class Interp:
                     if r is not NOTIMPL:
                         return r
                 raise _Raised("TypeError")
-            if not (isinstance(a, int) and isinstance(b, int)):
+            if not (isinstance(a, (int, float)) and isinstance(b, (int, float))):
                 raise _Raised("TypeError")
             try:
+                if isinstance(n.op, ast.Div):
+                    return a / b
+                if isinstance(a, float) or isinstance(b, float):
+                    # float arithmetic (a value that went through true division): Python semantics, including rounding
+                    fops = {ast.Add: lambda: a + b, ast.Sub: lambda: a - b, ast.Mult: lambda: a * b, ast.Mod: lambda: a % b, ast.FloorDiv: lambda: a // b,
+                            ast.Pow: lambda: a ** b if abs(b) <= 4096 else (_ for _ in ()).throw(_Unsupported("pow range"))}
+                    if type(n.op) in fops:
+                        return fops[type(n.op)]()
+                    raise _Raised("TypeError")      # shifts / bit operations on floats
                 if isinstance(n.op, ast.Add):
                     return a + b
                 if isinstance(n.op, ast.Sub):
@@ -364,6 +372,8 @@ class Interp:
                     return a ^ b
             except ZeroDivisionError:
                 raise _Raised("ZeroDivisionError")
+            except OverflowError:
+                raise _Raised("OverflowError")
             except ValueError:
                 raise _Raised("ValueError")
             raise _Unsupported("operator " + type(n.op).__name__)
@@ -415,12 +425,15 @@ class Interp:
             v = args[0]
             if isinstance(v, _Obj):
                 return self.call(v, "__int__", [])
-            if isinstance(v, int):
-                return int(v)
+            if isinstance(v, (int, float)):
+                try:
+                    return int(v)
+                except (OverflowError, ValueError) as e:
+                    raise _Raised(type(e).__name__)
             raise _Raised("TypeError")
         if fname == "type" and len(args) == 1 and isinstance(args[0], _Obj):
             return self.classref
-        if fname in ("abs", "min", "max") and args and all(isinstance(a, int) for a in args) and not kw:
+        if fname in ("abs", "min", "max") and args and all(isinstance(a, (int, float)) for a in args) and not kw:
             return {"abs": abs, "min": min, "max": max}[fname](*args)
         if isinstance(f, ast.Attribute):
             recv = self._expr(f.value, env)
@@ -463,7 +476,7 @@ def _cell(a: int, b: int, bits: int) -> str:
 
 EXHAUSTIVE_QUICK = (1, 2, 3, 4, 5)
 EXHAUSTIVE_THOROUGH = (1, 2, 3, 4, 5, 6, 7)
-BOUNDARY_WIDTHS = (6, 7, 8, 16, 32, 64)
+BOUNDARY_WIDTHS = (6, 7, 8, 16, 32, 53, 54, 55, 56, 64, 96, 128)   # >= 55 bits: 2**(bits-1) - 1 is no longer a float
 
 
 def _pairs(bits: int, exhaustive: bool):
@@ -562,7 +575,7 @@ def check(ctx):
                         bad_const.setdefault(k, f"SerialNumber({number}, serialBits={bits}).{k} = {got!r}, RFC 1982 requires {v}")
         for k in ("_serialBits", "_modulo", "_halfRing", "_maxAdd", "_number"):
             ctx.check(k not in bad_const and "__init__" not in bad_const, "rfc1982/ring-constants", f"{Q}.__init__ | self.{k}",
-                      bad_const.get(k) or bad_const.get("__init__", ""), detail=f"{n_const} (number, width) pairs, widths 1..64")
+                      bad_const.get(k) or bad_const.get("__init__", ""), detail=f"{n_const} (number, width) pairs, widths 1..64, 96, 128")
         # default width is 32 (DNS serials)
         kind, o = _run(lambda: ip.construct(5))
         ctx.check(kind == "value" and o.fields.get("_serialBits") == 32, "rfc1982/ring-constants", f"{Q}.__init__ | default serialBits",
@@ -709,6 +722,9 @@ MUTANTS = [
     Mutant("gt-wrong-branch-operand", RFC,
            "            and (other_sn._number - self._number) > self._halfRing\n",
            "            and (other_sn._number - self._number) >= self._halfRing\n", expect_rule="rfc1982/compare-table"),
+    Mutant("ring-constants-through-true-division", RFC, "        self._halfRing: int = 2 ** (serialBits - 1)\n        self._maxAdd = 2 ** (serialBits - 1) - 1\n",
+           "        self._halfRing: int = self._modulo / 2\n        self._maxAdd = self._halfRing - 1\n", expect_rule="rfc1982/add-refuses-large"),
+    Mutant("max-add-rounded-through-float", RFC, "        self._maxAdd = 2 ** (serialBits - 1) - 1\n", "        self._maxAdd = int(self._modulo / 2 - 1)\n", expect_rule="rfc1982/ring-constants"),
     Mutant("number-not-reduced", RFC, "        self._number: int = int(number) % self._modulo\n", "        self._number: int = int(number)\n",
            expect_rule="rfc1982/ring-constants"),
 ]
@@ -721,6 +737,7 @@ SILENT = [
     Silent("add-relies-on-init-reduction", RFC, "                (self._number + other._number) % self._modulo,\n",
            "                self._number + other._number,\n"),
     Silent("half-ring-as-modulo-halved", RFC, "        self._halfRing: int = 2 ** (serialBits - 1)\n", "        self._halfRing: int = self._modulo // 2\n"),
+    Silent("half-ring-exact-float-division", RFC, "        self._halfRing: int = 2 ** (serialBits - 1)\n", "        self._halfRing: int = int(self._modulo / 2)\n"),
     Silent("le-reordered", RFC, "        return self == other or self < other\n", "        return self < other or other == self\n"),
     Silent("gt-via-swapped-lt", RFC,
            "        return (\n            self._number < other_sn._number\n            and (other_sn._number - self._number) > self._halfRing\n        ) or (\n"
